@@ -4,7 +4,7 @@
    CENTRED data (what np.dot(values.T, values) works on). *)
 From Coq Require Import List Reals Permutation QArith.
 From FDAV Require Import Base.Num Base.Vec Base.Quad Model.Stats Gen.Consts
-  Lemmas.Vec Lemmas.Gram Lemmas.Stats Lemmas.NoiseConst Lemmas.CovPerm Lemmas.CovShift Gen.NoiseVar Lemmas.GenNoiseVar.
+  Lemmas.Vec Lemmas.Gram Lemmas.Stats Lemmas.NoiseConst Lemmas.CovPerm Lemmas.CovShift Lemmas.CovScale Gen.NoiseVar Lemmas.GenNoiseVar.
 Import ListNotations.
 Local Open Scope R_scope.
 
@@ -59,6 +59,15 @@ Theorem C09_symmetrise_fixes_symmetric : forall n S i j, (i < n)%nat -> (j < n)%
   ent S i j = ent S j i -> ent (symmetrise opsR n S) i j = ent S i j.
 Proof. exact symmetrise_fixes_symmetric. Qed.
 Print Assumptions C09_symmetrise_fixes_symmetric.
+
+(* no absolute scale: the same curves in other units (every value times a, any a — in particular the tiny factors of curves
+   recorded in small units) have the mean times a and the covariance times a^2 *)
+Theorem C09_mean_scale : forall a m X, mean opsR m (map (vscale opsR a) X) = vscale opsR a (mean opsR m X).
+Proof. exact mean_scale. Qed.
+Print Assumptions C09_mean_scale.
+Theorem C09_cov_scale : forall a m X, cov opsR m (map (vscale opsR a) X) = mscale opsR (a * a) (cov opsR m X).
+Proof. exact cov_scale. Qed.
+Print Assumptions C09_cov_scale.
 
 (* difference-based noise variance *)
 Theorem C09_noise_nonneg : forall d X, 0 <= noise_var opsR d X.
